@@ -336,6 +336,28 @@ func TestC20_EnvelopeGrid(t *testing.T) {
 				}
 				run(pre+"payload="+v.name, "payload", icbor.Encode(icbor.Tag(18, icbor.Arr(e...))), true)
 			}
+			// the whole (correct) envelope inside something else
+			for name, w := range map[string]*icbor.Node{
+				"bstr(envelope)":        icbor.Bstr(good),
+				"bstr(bstr(envelope))":  icbor.Bstr(icbor.Encode(icbor.Bstr(good))),
+				"tag24(bstr(envelope))": icbor.Tag(24, icbor.Bstr(good)),
+				"[envelope]":            icbor.Arr(icbor.Tag(18, icbor.Arr(elems()...))),
+				"{0: envelope}":         icbor.Map(icbor.P(icbor.U(0), icbor.Tag(18, icbor.Arr(elems()...)))),
+				"tstr(envelope)":        &icbor.Node{Kind: icbor.KText, B: good},
+			} {
+				run(pre+"wrapped="+name, "wrapped", icbor.Encode(w), true)
+			}
+			// the payload behind tag 24 / other "encoded item" spellings
+			for name, pl := range map[string][]byte{
+				"tag24(bstr(claims))":      icbor.Encode(icbor.Tag(24, icbor.Bstr(claims))),
+				"tag24_long(bstr(claims))": icbor.Encode(icbor.Tag(24, icbor.Bstr(claims)).WithHead(2)),
+				"tag63(bstr(claims))":      icbor.Encode(icbor.Tag(63, icbor.Bstr(claims))),
+			} {
+				e := elems()
+				e[2] = icbor.Bstr(pl)
+				e[3] = icbor.Bstr(sigOver(pl))
+				run(pre+"payload="+name, "payload", icbor.Encode(icbor.Tag(18, icbor.Arr(e...))), true)
+			}
 			// trailing bytes
 			for _, tr := range [][]byte{{0x00}, {0xff}, {0xf6}, {0x00, 0x00}, {0xd2, 0x84}, {0x40, 0xa0, 0x40}} {
 				run(fmt.Sprintf("%strailing=%x", pre, tr), "trailing", append(append([]byte{}, good...), tr...), true)
